@@ -317,14 +317,18 @@ Section Semantics.
         | UNot => bind (eval tr v) (fun tr1 x => Some (tr1, Val (VBool (negb (truthy x)))))
         | UVoid => bind (eval tr v) (fun tr1 _ => Some (tr1, Val VUndef))
         | UTypeof =>
+            (* "typeof x" on a bare identifier never throws; a node whose operand
+               became an identifier later (w = false) stands for "typeof (0, x)" *)
             match v with
             | EId ref _ _ =>
-                if w_unbound W ref then
-                  match w_genv W ref with
-                  | Some x => Some (tr, Val (VStr (typeof_value x)))
-                  | None => Some (tr, Val (VStr s_undefined))
-                  end
-                else Some (tr, Val (VStr (typeof_value (w_lenv W ref))))
+                if w then
+                  if w_unbound W ref then
+                    match w_genv W ref with
+                    | Some x => Some (tr, Val (VStr (typeof_value x)))
+                    | None => Some (tr, Val (VStr s_undefined))
+                    end
+                  else Some (tr, Val (VStr (typeof_value (w_lenv W ref))))
+                else bind (eval tr v) (fun tr1 x => Some (tr1, Val (VStr (typeof_value x))))
             | _ => bind (eval tr v) (fun tr1 x => Some (tr1, Val (VStr (typeof_value x))))
             end
         | UPos | UNeg | UCpl => bind (eval tr v) (fun tr1 x => eff tr1 (w_un W op x))
